@@ -37,7 +37,7 @@ def u10_network_duplicates_are_filtered(ctx):
         busy.discard("C02")
     n = 0
     for o in sub.obs:
-        if o.rule == "F4" and ("ring-cleared" in o.key or "forward-jump-clamp" in o.key):
+        if (o.rule == "F4" and ("ring-cleared" in o.key or "forward-jump-clamp" in o.key)) or (o.rule == "F3" and ("filter-never-cleared" in o.key or "filter-never-replaced" in o.key)):
             n += 1
             parts = o.key.split("|")
             ctx.ob("U10", parts[1], parts[2], o.where, o.ok, o.detail, ordinal=len(parts) > 3)
